@@ -672,6 +672,10 @@ func calculateTextEditRange(content string, pos protocol.Position, ctxType Compl
 	default:
 		return nil
 	}
+	// The edit replaces what was typed before the cursor, never text behind it.
+	if startByte > byteCol {
+		startByte = byteCol
+	}
 
 	startChar := lsputil.ByteOffsetToUTF16(line, startByte)
 	return &protocol.Range{
